@@ -43,7 +43,9 @@ GTwin(p) == /\ up[p] /\ p \in ApPeers
                  /\ Apply(MsgRec(p, {}, {Key(k.x, i)}, inr[p][k.x][k.id]))
 
 (* single withdrawal: of a held route, a second time, of an identifier never announced *)
-GWd(p) == up[p] /\ \E k \in {RandKey(p)} : Apply(MsgRec(p, {k}, {}, NoRoute))
+HeldKeys(p) == {k \in Keys(p) : inr[p][k.x][k.id] # NoRoute}
+GWd(p) == up[p] /\ \E k \in {IF HeldKeys(p) # {} /\ RandomElement(1..2) = 1 THEN RandomElement(HeldKeys(p)) ELSE RandKey(p)} :
+                   Apply(MsgRec(p, {k}, {}, NoRoute))
 
 (* an UPDATE burst: two to four keys of one neighbour in ONE message, split at random into
    withdrawn and announced routes (the announced ones share the attributes) *)
